@@ -159,6 +159,15 @@ func Observe(name string, v uint64) {
 	mu.Unlock()
 }
 
+// ObserveBool records a boolean as 0/1.
+func ObserveBool(name string, v bool) {
+	if v {
+		Observe(name, 1)
+	} else {
+		Observe(name, 0)
+	}
+}
+
 func Observed() []string { return observed }
 
 // Symbolic reports whether the harness runs under the engine.
@@ -387,3 +396,61 @@ func Preemptions(n int) {}
 
 // Debug prints values (engine: symbolic rendering) - harness development aid.
 func Debug(args ...interface{}) { fmt.Println(append([]interface{}{"RT-DEBUG:"}, args...)...) }
+
+// ObserveStr / ObserveBytes record values for translation validation.
+func ObserveStr(name string, v string) {
+	mu.Lock()
+	observed = append(observed, fmt.Sprintf("%s=%x", name, []byte(v)))
+	mu.Unlock()
+}
+
+func ObserveBytes(name string, v []byte) {
+	mu.Lock()
+	observed = append(observed, fmt.Sprintf("%s=%x", name, v))
+	mu.Unlock()
+}
+
+// SelfcheckFile is the input of RunSelfcheck.
+type SelfcheckFile struct {
+	Harness string `json:"harness"`
+	Tier    string `json:"tier"`
+	Samples []struct {
+		Model map[string]uint64 `json:"model"`
+	} `json:"samples"`
+}
+
+// RunSelfcheck runs the harness natively once per recorded sample and prints
+// the observations, which the driver compares with the engine's values.
+func RunSelfcheck(fns map[string]func()) {
+	b, err := os.ReadFile(os.Getenv("VERIF_SELFCHECK"))
+	if err != nil {
+		fmt.Println("VERIF-SELFCHECK-ERROR", err)
+		return
+	}
+	var sf SelfcheckFile
+	if err := json.Unmarshal(b, &sf); err != nil {
+		fmt.Println("VERIF-SELFCHECK-ERROR", err)
+		return
+	}
+	fn := fns[sf.Harness]
+	if fn == nil {
+		fmt.Println("VERIF-SELFCHECK-ERROR unknown harness", sf.Harness)
+		return
+	}
+	Current.Tier = sf.Tier
+	for i, s := range sf.Samples {
+		SetModel(s.Model)
+		func() {
+			defer func() {
+				if r := recover(); r != nil {
+					fmt.Printf("VERIF-SAMPLE-PANIC %d %v\n", i, r)
+				}
+			}()
+			fn()
+		}()
+		fmt.Printf("VERIF-SAMPLE %d %d\n", i, len(Failed))
+		for _, o := range Observed() {
+			fmt.Println("VERIF-OBSERVE", i, o)
+		}
+	}
+}
